@@ -42,8 +42,6 @@ fn register_dispatcher_after_borrows<S>(&self, sources: &mut SourceList<'l, Data
 }
 
 //@ item src/loop_logic.rs / struct Signals props=C11
-//@ pre
-#[verifier::external_body]
 //@ enditem
 //@ item src/loop_logic.rs / struct EventLoop props=C09,C01
 //@ pre
